@@ -246,6 +246,22 @@ func c10DSC(r *rt.Run, failAt bool) {
 	if ds != wantDeb || (derr != nil) != wantErr {
 		d.bad("DebianSource()", "got (%q,%v) want (%q, err=%v)", ds, derr, wantDeb, wantErr)
 	}
+	// second look: accessors only read - the fields they were derived from, and
+	// the accessors called again, still agree with the model
+	d.via += "/second-look-after-the-accessors"
+	d.list("Uploaders", got.Uploaders, m.Uploaders)
+	d.list("Binaries", got.Binaries, m.Binaries)
+	d.list("Maintainers()", got.Maintainers(), append([]string{m.Maintainer}, m.Uploaders...))
+	d.list("Maintainers()", got.Maintainers(), append([]string{m.Maintainer}, m.Uploaders...))
+	d.archs("Architectures", got.Architectures, m.Archs)
+	d.hashes("Files", fhMD5(got.Files), m.Files, "md5", mFile.md5)
+	if abs2 := got.AbsFiles(); len(abs2) == len(m.Files) {
+		for i, f := range m.Files {
+			if abs2[i].Filename != path.Join("/srv/incoming", f.Name) {
+				d.bad("AbsFiles()", "entry %d: %q", i, abs2[i].Filename)
+			}
+		}
+	}
 }
 
 func c10Changes(r *rt.Run, failAt bool) {
@@ -420,6 +436,9 @@ func c10Control(r *rt.Run, failAt bool) {
 	d.dep("Source.BuildConflicts", s.BuildConflicts, m.Src.BC)
 	d.dep("Source.BuildConflictsIndep", s.BuildConflictsIndep, m.Src.BCI)
 	d.list("Source.Maintainers()", s.Maintainers(), append([]string{m.Src.Maintainer}, m.Src.Uploaders...))
+	// (accessors only read: called again, and the field looked at again)
+	d.list("Source.Maintainers()/again", s.Maintainers(), append([]string{m.Src.Maintainer}, m.Src.Uploaders...))
+	d.list("Source.Uploaders/after-the-accessor", s.Uploaders, m.Src.Uploaders)
 	if len(got.Binaries) != len(m.Bins) {
 		d.bad("Binaries", "got %d binary paragraphs want %d", len(got.Binaries), len(m.Bins))
 		return
